@@ -13,6 +13,8 @@ mod location_cover;
 pub mod server_state;
 /// A service to power go-to-definition requests
 mod variable_definition;
+#[cfg(samlang_verif)]
+mod verif_hooks;
 
 use itertools::Itertools;
 use samlang_ast::{
